@@ -44,7 +44,8 @@ NormMsg(m) ==
     [] m.t = "SIG" -> [t |-> "SIG", v |-> m.v, st |-> m.st, rt |-> m.rt, xs |-> m.xs]
     [] m.t = "D" -> [t |-> "D", v |-> m.v, st |-> m.st, rt |-> m.rt, flag |-> m.flag, skid |-> m.skid,
                      rkid |-> m.rkid, next |-> m.next, ctr |-> m.ctr, mac |-> <<m.mac[1], m.mac[2]>>,
-                     text |-> m.text, rs |-> m.rs, tlvs |-> m.tlvs, discl |-> TupSet(m.discl)]
+                     text |-> m.text, rs |-> m.rs, tlvs |-> m.tlvs, discl |-> TupSet(m.discl),
+                     smp |-> [k |-> m.smp.k, sec |-> m.smp.sec, ok |-> m.smp.ok, run |-> m.smp.run]]
     [] OTHER -> [t |-> "G", why |-> m.why, v |-> m.v, st |-> m.st, rt |-> m.rt, typ |-> m.typ, flag |-> m.flag]
 
 NormOut(out) == [i \in DOMAIN out |-> OpaqueMsg(NormMsg(out[i]))]
@@ -81,6 +82,9 @@ Apply(e) ==
        [] e.ev = "Query" -> Query(s)
        [] e.ev = "Tick" -> Tick(s)
        [] e.ev = "ExtraKey" -> ExtraKey(s)
+       [] e.ev = "SMPStart" -> SMPStart(s, e.s, e.q, e.run)
+       [] e.ev = "SMPAnswer" -> SMPAnswer(s, e.s)
+       [] e.ev = "SMPAbort" -> SMPAbort(s)
 
 \* fields (of the result and of the state) in which specification and code differ
 ResultDiffs(e, r) ==
@@ -110,6 +114,7 @@ InitObsFam(fam) ==
    lastsec |-> [p \in Parties |-> "none"],
    wire |-> {},                               \* <<text, resent, wire id>> of every data message emitted
    started |-> FALSE,
+   smpok |-> [p \in Parties |-> FALSE],      \* SMP success seen since the last deviant message
    used |-> [p \in Parties |-> {}],          \* receiving MAC keys that verified an accepted message
    disclosed |-> [p \in Parties |-> {}],     \* MAC keys disclosed so far
    flagged |-> {}]
@@ -136,6 +141,8 @@ NextObs(e) ==
                        /\ (e.plain > 0 \/ HasEv(e, "msg:LogHeartbeatReceived"))
                     THEN @ \cup {<<e.m.mac[1], e.m.mac[2]>>} ELSE IF e.st.ms # "enc" THEN {} ELSE @,
      !.disclosed[e.p] = @ \cup UNION {TupSet(e.out[i].discl) : i \in DataOuts(e)},
+     !.smpok[e.p] = IF e.ev = "Recv" /\ e.atk # "" THEN FALSE ELSE IF HasEv(e, "smp:Success") THEN TRUE ELSE @,
+     !.smpok[Other(e.p)] = IF e.ev = "Recv" /\ e.atk # "" THEN FALSE ELSE @,
      !.started = @ \/ e.st.auth \notin {"nil", "none"} \/ e.st.ms = "enc"]
 
 OwnerOfId(id) == IF (id > 100 /\ id < 200) \/ (id >= 100000 /\ id < 200000) THEN "A"
@@ -192,7 +199,7 @@ PropViolations(e, o) ==
   \cup (IF e.ev = "Recv" /\ e.atk # "" /\ e.plain # 0 /\ ~HasEv(e, "msg:ReceivedMessageUnencrypted")
            /\ (st[p].ms # "plain" \/ st[p].pol.req)
         THEN {<<"C02", "a tampered or forged message yielded plaintext">>} ELSE {})
-  \cup (IF e.ev # "Done" /\ e.st.ms = "enc" /\ HasEv(e, "sec:GoneSecure") /\
+  \cup (IF e.ev # "Done" /\ o.fam # "relay" /\ e.st.ms = "enc" /\ HasEv(e, "sec:GoneSecure") /\
              ~(/\ e.st.peer \in {"A", "B", "E"}
                /\ e.st.sess[1] > 0 /\ e.st.sess[2] > 0
                /\ {OwnerOfId(e.st.sess[1]), OwnerOfId(e.st.sess[2])} = {p, e.st.peer}
@@ -226,6 +233,17 @@ PropViolations(e, o) ==
            /\ (e.plain # 0 \/ (\E i \in DOMAIN e.out : e.out[i].t # "E" \/ (e.m.st > 0 /\ e.m.rt # -1))
                 \/ \E f \in (StateFields \ {"frag"}) : SpecField(st[p], f) # Logged(e.st, f))
         THEN {<<"C15", "a message from or for another instance was not ignored">>} ELSE {})
+  \cup (IF e.ev # "Done" /\ e.panic
+        THEN {<<"C13", "a public API call panicked">>} ELSE {})
+  \cup (IF e.ev # "Done" /\ e.allock > 4096 + 64 * (e.inlen \div 1024 + 1)
+        THEN {<<"C13", "a call allocated memory out of proportion to its input">>} ELSE {})
+  \cup (IF e.ev # "Done" /\ e.ms > 5000
+        THEN {<<"C13", "a call took more than five seconds">>} ELSE {})
+  \cup (IF e.ev = "Recv" /\ HasEv(e, "smp:Success") /\ e.m.t = "D" /\
+             (e.atk # "" \/ e.m.smp.ok # "ok" \/ e.m.smp.sec # st[p].smpsec)
+        THEN {<<IF e.atk # "" \/ e.m.smp.ok # "ok" THEN "C12" ELSE "C11", "SMP reported success although the secrets bound by the two parties differ or the message was deviant">>} ELSE {})
+  \cup (IF e.ev = "Done" /\ o.fam = "smpdev" /\ ~(o.smpok["A"] /\ o.smpok["B"])
+        THEN {<<"C12", "after a deviant SMP message an honest run with equal secrets did not succeed on both sides">>} ELSE {})
   \cup (IF e.ev = "Done" /\ o.fam = "ake" /\ e.qa = 0 /\ e.qb = 0 /\ o.started /\
              ~(/\ st["A"].ms = "enc" /\ st["B"].ms = "enc" /\ st["A"].sess = st["B"].sess
                /\ st["A"].peer = "B" /\ st["B"].peer = "A" /\ st["A"].rev # st["B"].rev)
